@@ -618,6 +618,28 @@ def _py_dispatch(P, nm):
     return table
 
 
+def _giw_roles(fn):
+    """C names of get_integration_weight by role (parameters by position; the array handed to sort_omegas, the variable
+    that receives its result and the accumulator), so that a renamed local or parameter changes nothing."""
+    cren = {}
+    ps_ = [p_.get("name") for p_ in cast.params(fn)]
+    if len(ps_) != 4:
+        raise AnalysisError(f"get_integration_weight: {len(ps_)} parameters, expected 4")
+    cren.update({ps_[0]: "omega", ps_[1]: "tetrahedra_omegas", ps_[2]: "gn", ps_[3]: "IJ"})
+    for x in cast.walk(fn):
+        if x.get("kind") == "BinaryOperator" and x.get("opcode") == "=":
+            l_, r_ = cast.kids(x)
+            r_ = cast.strip(r_)
+            if r_.get("kind") == "CallExpr" and cast.callee_name(r_) == "sort_omegas":
+                cren[cast.text(cast.strip(l_))] = "ci"
+                cren[cast.text(cast.strip(cast.call_args(r_)[0]))] = "v"
+        if x.get("kind") == "CompoundAssignOperator":
+            cren[cast.text(cast.strip(cast.kids(x)[0]))] = "sum"
+    if sorted(cren.values()) != sorted(["omega", "tetrahedra_omegas", "gn", "IJ", "ci", "v", "sum"]):
+        raise AnalysisError(f"get_integration_weight: roles not found ({sorted(cren.values())})")
+    return cren
+
+
 def _r11g(rep, tu, P):
     for nm in ("_J", "_I", "_n", "_g"):
         ct, pt = _c_dispatch(tu, nm), _py_dispatch(P, nm)
@@ -634,22 +656,7 @@ def _r11g(rep, tu, P):
     if fn is None:
         raise AnalysisError("anchor vanished: get_integration_weight")
 
-    # C names by role (parameters by position; the array handed to sort_omegas, the variable that receives its result
-    # and the accumulator), so that a renamed local or parameter changes nothing
-    cren = {}
-    ps_ = [p_.get("name") for p_ in cast.params(fn)]
-    if len(ps_) != 4:
-        raise AnalysisError(f"get_integration_weight: {len(ps_)} parameters, expected 4")
-    cren.update({ps_[0]: "omega", ps_[2]: "gn", ps_[3]: "IJ"})
-    for x in cast.walk(fn):
-        if x.get("kind") == "BinaryOperator" and x.get("opcode") == "=":
-            l_, r_ = cast.kids(x)
-            r_ = cast.strip(r_)
-            if r_.get("kind") == "CallExpr" and cast.callee_name(r_) == "sort_omegas":
-                cren[cast.text(cast.strip(l_))] = "ci"
-                cren[cast.text(cast.strip(cast.call_args(r_)[0]))] = "v"
-        if x.get("kind") == "CompoundAssignOperator":
-            cren[cast.text(cast.strip(cast.kids(x)[0]))] = "sum"
+    cren = _giw_roles(fn)
 
     def ctext(e):
         return re.sub(r"\b[A-Za-z_]\w*\b", lambda m: cren.get(m.group(0), m.group(0)), cast.text(e))
@@ -812,7 +819,7 @@ def _r11h(rep, C: CSide):
         seen.add((nm, conds))
         true_conds = [c for c, t in conds if t]
         ok = expr == 0 and len(true_conds) == 1 and (
-            re.fullmatch(r"fabs\(delta\) < 1\.0*E-10", true_conds[0]) is not None or re.fullmatch(r"[a-z]\w* < 1\.0*E-10", true_conds[0]) is not None
+            re.fullmatch(r"fabs\([A-Za-z_]\w*\) < 1\.0*E-10", true_conds[0]) is not None or re.fullmatch(r"[a-z]\w* < 1\.0*E-10", true_conds[0]) is not None
         )
         rep.instance("R11h", CF, nm, f"guard {true_conds} -> return {expr}", ok,
                      "an early return of the closed form is not the documented epsilon guard (|delta| < THM_EPSILON or the divisor n/g < THM_EPSILON -> 0)", line=C.tu.line(C.tu.functions[nm]))
@@ -859,14 +866,23 @@ def _r11j(rep):
     rep.instance("R11j", CF, "thm_get_all_relative_grid_address", f"{len(cells4)} cells copied to the same position", ok4, "the four tables are not copied entry by entry", line=tu.line(tu.functions["thm_get_all_relative_grid_address"]))
     # get_integration_weight: vertex copy and IJ * gn
     giw = tu.functions["get_integration_weight"]
-    copies = [x for x in cast.walk(giw) if x.get("kind") == "BinaryOperator" and x.get("opcode") == "=" and cast.text(cast.kids(x)[0]).startswith("v[")]
-    ok_copy = len(copies) == 1 and cast.text(cast.kids(copies[0])[0]) == "v[j]" and cast.text(cast.kids(copies[0])[1]).replace(" ", "") == "tetrahedra_omegas[i][j]"
-    acc = [x for x in cast.walk(giw) if x.get("kind") == "CompoundAssignOperator" and cast.text(cast.kids(x)[0]) == "sum"]
+    roles = _giw_roles(giw)
+
+    def rtext(e):
+        return re.sub(r"\b[A-Za-z_]\w*\b", lambda m: roles.get(m.group(0), m.group(0)), cast.text(e)).replace(" ", "")
+
+    copies = [x for x in cast.walk(giw) if x.get("kind") == "BinaryOperator" and x.get("opcode") == "=" and rtext(cast.kids(x)[0]).startswith("v[")]
+    ok_copy = False
+    if len(copies) == 1:
+        m_l = re.fullmatch(r"v\[(\w+)\]", rtext(cast.kids(copies[0])[0]))
+        m_r = re.fullmatch(r"tetrahedra_omegas\[(\w+)\]\[(\w+)\]", rtext(cast.kids(copies[0])[1]))
+        ok_copy = bool(m_l and m_r and m_l.group(1) == m_r.group(2) and m_r.group(1) != m_r.group(2))
+    acc = [x for x in cast.walk(giw) if x.get("kind") == "CompoundAssignOperator" and rtext(cast.kids(x)[0]) == "sum"]
     prods = []
     for x in acc:
         rhs = cast.strip(cast.kids(x)[1])
         ks = [cast.strip(y) for y in cast.kids(rhs)] if rhs.get("kind") == "BinaryOperator" and rhs.get("opcode") == "*" else []
-        prods.append(x.get("opcode") == "+=" and len(ks) == 2 and sorted(cast.text(cast.kids(y)[0]) for y in ks if y.get("kind") == "CallExpr") == ["IJ", "gn"])
+        prods.append(x.get("opcode") == "+=" and len(ks) == 2 and sorted(rtext(cast.kids(y)[0]) for y in ks if y.get("kind") == "CallExpr") == ["IJ", "gn"])
     rep.instance("R11j", CF, "get_integration_weight", f"v[j] = tetrahedra_omegas[i][j]; {len(acc)} cases add IJ(...) * gn(...)", ok_copy and len(acc) == 5 and all(prods),
                  "the vertex frequencies of tetrahedron i are not copied in order, or a case does not add the product IJ * gn", line=tu.line(giw))
     # Python side of the same two facts
